@@ -47,6 +47,12 @@ CHECKS = {
             "are executed from pre-seeds 101 and 202: the generator state and the next draws afterwards must differ, and no library frame may call np.random.seed when no Sampler random_state is configured; every configuration x random_state "
             "is run three times in one process (back to back, and after disturbing the global stream) and must be bit-identical, different seeds must differ; inside clustering runs the generator state after every iteration must depend on the pre-seed.",
             "Trusted: numpy's legacy global generator semantics. Seeding from the user's own Sampler random_state is treated as legitimate.", "DESIGN.md §4 C09"),
+    "C11": ("model_checking",
+            "exhaustive enumeration of -inf mask sequences over the warm-up iterations (scripted prior draws and replacement answers) on the real Sampler.sample(), with a step-boundary monitor",
+            "All sequences of zero-likelihood masks (m_1..m_W) in ({0,1}^n)^W for n in {2,3,4} and W in {1..4} warm-up iterations (W forced through ess_ratio), plus all replacement-index answers for small n, are executed through the real "
+            "iteration loop: no -inf log-likelihood may be stored at any step boundary, each beta=0 batch's recorded logZ must lie within [min,max] of the per-batch log supported fractions seen so far (counted once), and for a constant-on-support "
+            "likelihood the first annealing iteration must jump to beta=1 with its evidence inside the same interval.",
+            "Trusted: the interval oracle accepts per-batch, pooled and harmonic-pooled estimators. The statistical half of the property (convergence of the final evidence) is outside this family (see C02).", "DESIGN.md §4 C11"),
     "C12": ("model_checking",
             "terminal-state exploration of deviation-bounded runs over a covering array; exhaustive product of posterior() options x trimming parameters x scripted resampling offsets on every terminal state, against the reference MIS model",
             "Every terminal state reached by the real run() with <=1 tape deviation per configuration (pairwise/3-wise covering array of kernel, resampler, clustering, metric, evaluation, boundary, n_total, ess_ratio, target) "
